@@ -54,6 +54,8 @@ func main() {
 		raceReplay(args)
 	case "list-replay":
 		listReplay(args)
+	case "list-e2e":
+		listE2E(args)
 	case "sender-replay":
 		senderReplay(args)
 	case "sender-gen":
